@@ -100,3 +100,6 @@ func vfDiscDiscover(providerURL string, client *http.Client) bool {
 	md, err := discoverProviderMetadata(providerURL, client, l)
 	return err == nil && md != nil
 }
+
+// vfDiscDefaultClientTimeout: the overall timeout of the HTTP client New() builds when none is configured
+func vfDiscDefaultClientTimeout() time.Duration { return createDefaultHTTPClient().Timeout }
